@@ -68,7 +68,7 @@ def run(ctx):
         gpairs = []
         for i in range(60 if thorough else 14):
             lang = ctx.rng.choice(["C", "CPP", "JAVA"])
-            lines, txt = gen.program(ctx.rng, lang, stats=ctx.hist)
+            lines, txt = gen.program(ctx.rng, lang, stats=ctx.hist, cmt_prob=0.45)
             p = sc.write(txt, {"C": ".c", "CPP": ".cpp", "JAVA": ".java"}[lang])
             gpairs.append(("gen%d" % i, gcfg[i % 2], p, lang))
         for name, cfg, inp, lang in gpairs + pairs:
